@@ -6,7 +6,7 @@ from vf.tape import Fail, notrace
 
 PROPERTY = 'C16'
 SLOTS = [('e0', '/'), ('e0', '/a'), ('e1', '/')]
-KINDS = ['connect', 'save', 'save-empty', 'block', 'nested-block', 'block-left-by-exception', 'save-inside-block',
+KINDS = ['connect', 'save', 'save-empty', 'block', 'nested-block', 'block-left-by-exception', 'save-inside-block', 'deferred-block',
          'client-disconnect', 'server-disconnect']
 OPS = [(k, i) for k in KINDS for i in range(len(SLOTS))] + [('lose-reopen', 'e0'), ('lose-reopen', 'e1')]
 
@@ -151,6 +151,22 @@ def h(t, part):
             # leaving the block stores the block's dictionary
             model[sid] = dict(model[sid])
             model[sid]['b%d' % step] = v
+            saved_once = True
+        elif kind == 'deferred-block':
+            # the context manager is created first, the session is replaced, then the block is entered: the block works on
+            # the session as it is when it is entered
+            v = t.int(-3, 3)
+            cm = w.s.session(sid, namespace=ns)
+            w.call(w.s.save_session(sid, {'replaced': step}, namespace=ns))
+            if asyncio_:
+                async def go3():
+                    async with cm as sess:
+                        sess['d%d' % step] = v
+                w.call(go3())
+            else:
+                with cm as sess:
+                    sess['d%d' % step] = v
+            model[sid] = {'replaced': step, 'd%d' % step: v}
             saved_once = True
         elif kind == 'block-left-by-exception':
             v = t.int(-3, 3)
